@@ -231,6 +231,12 @@ StringDictionaryHHTFC::StringDictionaryHHTFC(IteratorDictString *it,
                 size_t xptr = VByte::decode(&value, &(dict->textStrings[ptr]));
 
                 for (uint i = 0; i < xptr; i++) {
+                  if (ptr + read >= dict->bytesStrings) {
+                    // (the end of the dictionary: only zero padding follows)
+                    codeSubstr = (codeSubstr << (TABLEBITSO - ptrSubstr));
+                    ptrSubstr = TABLEBITSO;
+                    break;
+                  }
                   uint symbol = dict->textStrings[ptr + read];
                   read++;
                   uint bits = codewordsHU[(int)symbol].bits;
@@ -253,6 +259,12 @@ StringDictionaryHHTFC::StringDictionaryHHTFC(IteratorDictString *it,
               }
 
               while (TABLEBITSO > ptrSubstr) {
+                if (ptr + read >= dict->bytesStrings) {
+                  // (the end of the dictionary: only zero padding follows)
+                  codeSubstr = (codeSubstr << (TABLEBITSO - ptrSubstr));
+                  ptrSubstr = TABLEBITSO;
+                  break;
+                }
                 uint symbol = dict->textStrings[ptr + read];
                 read++;
                 uint bits = codewordsHU[(int)symbol].bits;
@@ -282,6 +294,12 @@ StringDictionaryHHTFC::StringDictionaryHHTFC(IteratorDictString *it,
                         offset = 0;
 
                         while (true) {
+                          if (ptr + read >= dict->bytesStrings) {
+                            // (the end of the dictionary: only zero padding follows)
+                            codeSubstr = (codeSubstr << (TABLEBITSO - ptrSubstr));
+                            ptrSubstr = TABLEBITSO;
+                            break;
+                          }
                           uint symbol = dict->textStrings[ptr + read];
                           read++;
                           uint bits = codewordsHT[(int)symbol].bits;
